@@ -48,7 +48,9 @@ let eval toks =
            | None -> spec ^ " ENGINE-MODEL-OUT-OF-FUEL"
            | Some e ->
              let eng = show (e.e_pre, e.e_post) in
-             if eng = spec then spec else spec ^ " ENGINE-MODEL-DIFF " ^ eng)))
+             if eng <> spec then spec ^ " ENGINE-MODEL-DIFF " ^ eng
+             else if not (fs_certified (n_of_int s) f w use_asm e) then spec ^ " ENGINE-MODEL-NOT-CERTIFIED"
+             else spec)))
   | _ -> failwith "bad case"
 let () =
   let lines = read_lines Sys.argv.(Array.length Sys.argv - 1) in
